@@ -38,7 +38,7 @@ impl ExternalDevice for Recorder {
 #[derive(Clone)]
 pub struct IntSource { pub vect: u8, pub prio: u8, pub state: Arc<Mutex<IntState>> }
 #[derive(Default)]
-pub struct IntState { /** edge-triggered: a request is visible only at the poll it is raised at (lost if not taken then) */ pub edge: bool, pub poll: u64, pub raise_at: Vec<u64>, pub pending: u32, pub clear_mcr_at: Option<u64>, pub mcr: Option<Arc<std::sync::atomic::AtomicBool>> }
+pub struct IntState { /** edge-triggered: a request is visible only at the poll it is raised at (lost if not taken then) */ pub edge: bool, pub poll: u64, pub raise_at: Vec<u64>, pub pending: u32, pub clear_mcr_at: Option<u64>, /** clears the MCR at every poll whose index is n-1 modulo n (a brake for programs that never stop by themselves) */ pub clear_mcr_every: Option<u64>, pub mcr: Option<Arc<std::sync::atomic::AtomicBool>> }
 impl ExternalDevice for IntSource {
     fn io_read(&mut self, _: u16, _: bool) -> Option<u16> { None }
     fn io_write(&mut self, _: u16, _: u16) -> bool { false }
@@ -47,9 +47,10 @@ impl ExternalDevice for IntSource {
         let mut s = self.state.lock().unwrap_or_else(|e| e.into_inner());
         let p = s.poll; s.poll += 1;
         let n = s.raise_at.iter().filter(|x| **x == p).count() as u32;
-        if s.edge { return if n > 0 { Some(Interrupt::vectored(self.vect, self.prio)) } else { None }; }
         s.pending += n;
         if let (Some(at), Some(m)) = (s.clear_mcr_at, &s.mcr) { if at == p { m.store(false, std::sync::atomic::Ordering::Relaxed); } }
+        if let (Some(n), Some(m)) = (s.clear_mcr_every, &s.mcr) { if p % n == n - 1 { m.store(false, std::sync::atomic::Ordering::Relaxed); } }
+        if s.edge { s.pending = 0; return if n > 0 { Some(Interrupt::vectored(self.vect, self.prio)) } else { None }; }
         if s.pending > 0 { Some(Interrupt::vectored(self.vect, self.prio)) } else { None }
     }
 }
